@@ -213,7 +213,7 @@ class C16(Check):
         delays = None
         if rng.random() < 0.3:
             # long preemption of the consumer or of the producer thread at one line of the bridge
-            delays = [{'thread': rng.choice(['C', 'C', 'pool1of2']), 'qual': rng.choice(['to_async_iter', 'to_sync_iter']),
+            delays = [{'thread': rng.choice(['C', 'C', 'pool']), 'qual': rng.choice(['to_async_iter', 'to_sync_iter']),
                        'nth': rng.randint(1, 40), 'd': rng.choice([TICK, 10 * TICK, 100 * TICK])}]
         r = self.h.run(scen, strat, delays)
         res = CaseResult()
